@@ -962,7 +962,7 @@ class Message(ABC):
             value = self.__raw_get(name)
             if value is not PLACEHOLDER:
                 kwargs[name] = deepcopy(value)
-        return self.__copy_state_to(self.__class__(**kwargs))  # type: ignore
+        return self.__rebuild(kwargs)  # type: ignore
 
     def __copy__(self: T, _: Any = {}) -> T:
         kwargs = {}
@@ -970,11 +970,20 @@ class Message(ABC):
             value = self.__raw_get(name)
             if value is not PLACEHOLDER:
                 kwargs[name] = value
-        return self.__copy_state_to(self.__class__(**kwargs))  # type: ignore
+        return self.__rebuild(kwargs)  # type: ignore
 
-    def __copy_state_to(self: T, other: T) -> T:
-        # The constructor derives presence from its arguments and knows nothing
-        # about unknown fields: carry both over as they are.
+    def __rebuild(self: T, kwargs: Dict[str, Any]) -> T:
+        # The constructor derives presence from its arguments, marks field-less
+        # sub-messages as present and knows nothing about unknown fields: carry
+        # the flags and the unknown fields over as they are.
+        flags = [
+            (value, value._serialized_on_wire)
+            for value in kwargs.values()
+            if isinstance(value, Message)
+        ]
+        other = self.__class__(**kwargs)
+        for value, flag in flags:
+            value._serialized_on_wire = flag
         other.__dict__["_unknown_fields"] = self._unknown_fields
         other.__dict__["_serialized_on_wire"] = self._serialized_on_wire
         return other
